@@ -30,9 +30,9 @@ def run(ctx):
     # sequential programs: a blocking op whose condition never comes is reported `blocks` by the harness and must be
     # `blocks` in the model too (Enabled on the exact abstract state) - catches count/flag bookkeeping slips that make a
     # thread wait for a disconnect or for space that the history says is already there
-    ns = 3000 if ctx.quick else 40000
+    ns = 3000 if ctx.quick else 15000
     chanlib.tie(ctx, "seq-differential", [h, "gen", "--seed", str(ctx.seed), "--cases", str(ns), "--mode", "seq", "--tier", ctx.tier], [drv])
-    n = 4000 if ctx.quick else 80000
+    n = 4000 if ctx.quick else 25000
     chanlib.liveness_tie(ctx, "conc-liveness", [h, "gen", "--seed", str(ctx.seed), "--cases", str(n), "--mode", "conc",
                                                 "--tier", ctx.tier], drv)
     chanlib.race_pairs_tie(ctx, h, drv)
